@@ -447,7 +447,7 @@ def run_shard(spec, shard):
             d = r.randrange(2)
             ast, text, _ = diff.make_query(r, shard, filters=True, names=NAMES, doc=docs[d], min_segs=1, max_segs=3, blank_p=0.0)
             jobs.append({"q": text, "ast": ast, "doc": d})
-        case = {"kind": "threads", "jobs": jobs, "docs": docs, "reps": 2}
+        case = {"kind": "threads", "jobs": jobs, "docs": docs, "reps": 4}
         shard.case(key=(jobs, docs), nontrivial=True, classes={"thread-round"}, sample=None)
         f = examine(case)
         if f:
